@@ -2,8 +2,15 @@ module verif
 
 go 1.22
 
-require github.com/goose-lang/goose v0.0.0
+require (
+	github.com/anishathalye/porcupine v1.3.0
+	github.com/goose-lang/goose v0.0.0
+)
 
-require github.com/goose-lang/primitive v0.1.0 // indirect
+require (
+	github.com/goose-lang/primitive v0.1.0 // indirect
+	github.com/pkg/errors v0.9.1 // indirect
+	golang.org/x/sys v0.22.0 // indirect
+)
 
 replace github.com/goose-lang/goose => /repo
